@@ -10,7 +10,12 @@ Generator: (1) exhaustive — every tree shape (scalar / array / object nodes) u
 and for each the complete decision tree of callback answers over the six code classes
 (CONTINUE, SKIP, POP, STOP, ERROR, undefined value) for the first L calls; (2) random larger
 trees with random schedules and with single-deviation schedules (one non-CONTINUE answer at
-every call position of the plain traversal).
+every call position of the plain traversal); (3) size families — the statement has no bound on
+the tree, so nesting depth, container width and node count are swept on ladders around the
+usual limits (32, 64, ... 1000/1024, 2048, 3000 levels; 255 ... 65537 members; ~20000 nodes),
+each with the plain traversal and with STOP/POP/SKIP/ERROR/undefined answers placed at the far
+end (deepest node, last member, a deep second call).
+Paths are run-length encoded in the observation ("/0^1000/1").
 
 Direct oracle: `ref_visit`, a reference traversal written from the documentation in
 json_visit.h (and, where the header is silent, from json-c's own tests/test_visit.expected:
@@ -26,7 +31,10 @@ TECHNIQUE = ("Coq proof by induction on the tree that the recursive visitor equa
              "for every callback (VisitProofs.v) + extracted-model/C differential correspondence + Python reference traversal")
 RULE = ("exhaustive: all tree shapes up to N nodes (N=5 quick, 6 thorough) x the full decision tree of callback answers over "
         "{CONTINUE,SKIP,POP,STOP,ERROR,undefined} for the first L calls (quick: L=6 up to 4 nodes, 3 for 5; thorough: L=8 up to 4 nodes, 6 for 5, 4 for 6); "
-        "random: seeded trees up to ~80 nodes with random and single-deviation schedules.  A case is non-trivial when more "
+        "random: seeded trees up to ~80 nodes with random and single-deviation schedules; size families: nesting depth ladder "
+        "33..3000 (5000 thorough) with mixed array/object spines and sparse siblings, widths 255..65537 members, bushy trees of "
+        "10^4 nodes, each with the plain traversal and with codes at the deepest node / last member / a deep second call.  "
+        "A case is non-trivial when more "
         "than one call happened or the result is an error; distinct = distinct (tree, consumed schedule)")
 TRUSTED = ["Coq 8.16.1 kernel (coqc), no axioms (Print Assumptions: closed under the global context)",
            "extraction (ExtrOcamlBasic only) + ocaml/mdrv glue (drv_visit.ml turns a schedule into a callback)",
@@ -47,11 +55,6 @@ def code_name(c):
 
 
 # ------------------------------------------------------------------ reference traversal
-class _Halt(Exception):
-    def __init__(self, result):
-        self.result = result
-
-
 def _members(v):
     """None for a scalar, else (kind letter, [(key-or-index token, child)])"""
     if isinstance(v, list):
@@ -61,8 +64,21 @@ def _members(v):
     return None
 
 
-def _pstr(path):
-    return "/" + "/".join(str(i) for i in path)
+# a path is kept as (text of all runs but the last, last component, its repeat count); None = root
+def _pext(pst, pos):
+    if pst is None:
+        return ("", pos, 1)
+    pre, v, c = pst
+    if v == pos:
+        return (pre, v, c + 1)
+    return (pre + ("/%d^%d" % (v, c) if c > 1 else "/%d" % v), pos, 1)
+
+
+def _pstr(pst):
+    if pst is None:
+        return "/"
+    pre, v, c = pst
+    return pre + ("/%d^%d" % (v, c) if c > 1 else "/%d" % v)
 
 
 def ref_visit(tree, sched):
@@ -71,41 +87,50 @@ def ref_visit(tree, sched):
     SKIP: members of the current node are not iterated.  POP: the containing node stops
     iterating its members; the next call is its second call.  STOP: end now, success.
     ERROR: end now, failure.  Anything else is not a defined return value: failure.
-    Returns ([call strings], result)."""
+    Written with an explicit stack of open containers (no recursion: trees may be thousands
+    of levels deep).  Returns ([call strings], result)."""
     calls = []
+    nsched = len(sched)
 
-    def ask(path, flags, parent, ki):
-        calls.append("%s %d %s %s %d" % (_pstr(path), flags, parent, ki, len(path)))
+    def ask(pstr, flags, parent, ki, depth):
+        calls.append("%s %d %s %s %d" % (pstr, flags, parent, ki, depth))
         n = len(calls)
-        r = sched[n - 1] if n <= len(sched) else CONTINUE
-        if r == STOP:
-            raise _Halt(0)
-        if r not in (CONTINUE, SKIP, POP):
-            raise _Halt(-1)           # ERROR and every undefined value
-        return r
+        return sched[n - 1] if n <= nsched else CONTINUE
 
-    def node(v, path, parent, ki):
-        """True when the containing node has to abandon its remaining members"""
-        r = ask(path, 0, parent, ki)
-        if r == POP:
-            return True
-        ms = _members(v)
-        if ms is None or r == SKIP:
-            return False
-        kind, kids = ms
-        me = "%s@%s" % (kind, _pstr(path))
-        for pos, (tok, child) in enumerate(kids):
-            if node(child, path + (pos,), me, tok):
-                break
-        ask(path, SECOND, parent, ki)  # CONTINUE, SKIP, POP all mean: go on
-        return False
-
-    try:
-        node(tree, (), "-", "-")
-        res = 0
-    except _Halt as h:
-        res = h.result
-    return calls, res
+    open_ = []          # [pstr, parent, ki, depth, me, members, next member, path state]
+    entering = (tree, None, "-", "-", 0)
+    while True:
+        if entering is not None:
+            v, pst, parent, ki, depth = entering
+            entering = None
+            pstr = _pstr(pst)
+            r = ask(pstr, 0, parent, ki, depth)
+            if r == STOP:
+                return calls, 0
+            if r not in (CONTINUE, SKIP, POP):
+                return calls, -1          # ERROR and every undefined value
+            if r == POP:
+                if open_:                  # the containing node abandons its remaining members
+                    open_[-1][6] = len(open_[-1][5])
+            elif r == CONTINUE:
+                ms = _members(v)
+                if ms is not None:
+                    open_.append([pstr, parent, ki, depth, "%s@%s" % (ms[0], pstr), ms[1], 0, pst])
+        if not open_:
+            return calls, 0
+        fr = open_[-1]
+        if fr[6] < len(fr[5]):
+            pos = fr[6]
+            fr[6] += 1
+            tok, child = fr[5][pos]
+            entering = (child, _pext(fr[7], pos), fr[4], tok, fr[3] + 1)
+        else:
+            open_.pop()
+            r = ask(fr[0], SECOND, fr[1], fr[2], fr[3])
+            if r == STOP:
+                return calls, 0
+            if r not in (CONTINUE, SKIP, POP):   # on a second call SKIP and POP mean: go on
+                return calls, -1
 
 
 def want_obs(tree, sched):
@@ -117,9 +142,112 @@ def mkline(tree_text, sched):
     return "visit %s %s" % (tree_text, ",".join(str(c) for c in sched) if sched else "-")
 
 
+def dump(v):
+    """jvtext.dump without recursion"""
+    out = []
+    todo = [v]
+    while todo:
+        x = todo.pop()
+        if isinstance(x, str):
+            out.append(x)
+        elif isinstance(x, list):
+            todo.append("]")
+            for i in range(len(x) - 1, -1, -1):
+                todo.append(x[i])
+                if i:
+                    todo.append(",")
+            todo.append("[")
+        elif isinstance(x, tuple) and x[0] == "o":
+            todo.append("}")
+            for i in range(len(x[1]) - 1, -1, -1):
+                todo.append(x[1][i][1])
+                todo.append(("," if i else "") + jvtext.hx(x[1][i][0]) + "=")
+            todo.append("{")
+        else:
+            out.append(jvtext.dump(x))
+    return "".join(out)
+
+
+def parse(s):
+    """jvtext.parse without recursion"""
+    open_ = []      # ['a', items] | ['o', items, pending key]
+    pos = 0
+    have = False
+    val = None
+    while True:
+        if not have:
+            if open_ and open_[-1][0] == "o" and open_[-1][2] is None:
+                if s[pos] == "-":
+                    key, pos = b"", pos + 1
+                else:
+                    j = pos
+                    while s[j] in "0123456789abcdef":
+                        j += 1
+                    key, pos = bytes.fromhex(s[pos:j]), j
+                assert s[pos] == "="
+                pos += 1
+                open_[-1][2] = key
+                continue
+            c = s[pos]
+            if c == "[":
+                pos += 1
+                if s[pos] == "]":
+                    pos, val, have = pos + 1, [], True
+                else:
+                    open_.append(["a", []])
+            elif c == "{":
+                pos += 1
+                if s[pos] == "}":
+                    pos, val, have = pos + 1, ("o", []), True
+                else:
+                    open_.append(["o", [], None])
+            else:
+                val, pos = jvtext.parse(s, pos)
+                have = True
+        else:
+            if not open_:
+                assert pos == len(s)
+                return val
+            top = open_[-1]
+            if top[0] == "a":
+                top[1].append(val)
+            else:
+                top[1].append((top[2], val))
+                top[2] = None
+            have = False
+            if s[pos] == ",":
+                pos += 1
+                continue
+            assert s[pos] == ("]" if top[0] == "a" else "}")
+            pos += 1
+            open_.pop()
+            val = top[1] if top[0] == "a" else ("o", top[1])
+            have = True
+
+
+def _kids(v):
+    if isinstance(v, list):
+        return v
+    if isinstance(v, tuple) and v[0] == "o":
+        return [c for _, c in v[1]]
+    return None
+
+
+def _count(v):
+    n = 0
+    todo = [v]
+    while todo:
+        x = todo.pop()
+        n += 1
+        k = _kids(x)
+        if k:
+            todo.extend(k)
+    return n
+
+
 def parse_line(line):
     _, t, s = line.split(" ")
-    tree, _ = jvtext.parse(t)
+    tree = parse(t)
     sched = [] if s == "-" else [int(x) for x in s.split(",")]
     return t, tree, sched
 
@@ -192,16 +320,11 @@ def gen_exhaustive(tier):
         for shape in _shapes(n):
             salt += 1
             tree = _instantiate(shape, [salt, salt])
-            _decision_tree(tree, jvtext.dump(tree), maxcalls, salt, out, "exhaustive-%d" % n)
+            _decision_tree(tree, dump(tree), maxcalls, salt, out, "exhaustive-%d" % n)
     return out
 
 
 # ------------------------------------------------------------------ random part
-def _count(v):
-    ms = _members(v)
-    return 1 + (sum(_count(c) for _, c in ms[1]) if ms else 0)
-
-
 def _rand_code(rng):
     r = rng.random()
     if r < 0.55:
@@ -228,7 +351,7 @@ def gen_random(rng, tier):
                 break
         else:
             tree = [None, ("o", [(b"a", [])])]
-        text = jvtext.dump(tree)
+        text = dump(tree)
         _, full = want_obs(tree, [])
         # random schedules
         for _ in range(6):
@@ -245,8 +368,96 @@ def gen_random(rng, tier):
     return out
 
 
+# ------------------------------------------------------------------ size families
+# The statement quantifies over all trees: nothing in it bounds the nesting depth, the number of
+# members of a container or the number of nodes.  These families sweep those three dimensions.
+DEPTHS_QUICK = [33, 64, 65, 128, 129, 256, 257, 500, 512, 513, 1000, 1001, 1002, 1024, 1025, 1500, 2048, 2049, 3000]
+DEPTHS_THOROUGH = DEPTHS_QUICK + [4096, 4097, 5000]
+WIDTHS_QUICK = [255, 256, 257, 1000, 4096, 65535, 65536, 65537]
+
+
+def _spine_tree(rng, depth, style):
+    """`depth` nested containers around a leaf; sparse scalar siblings next to the spine (always
+    at the two innermost levels, so that POP/SKIP down there have something to leave out)"""
+    v = rng.choice([None, ("i", 7), [], ("o", []), b"x"])
+    for lvl in range(depth - 1, -1, -1):
+        kind = {"a": "a", "o": "o", "alt": "ao"[lvl % 2]}.get(style) or rng.choice("ao")
+        before = after = 0
+        if lvl >= depth - 2 or rng.random() < 0.01:
+            before, after = rng.choice([(0, 1), (1, 1), (2, 0), (0, 2)])
+        kids = [_LEAVES[(lvl + i) % len(_LEAVES)] for i in range(before)] + [v] + \
+               [_LEAVES[(lvl + i + 3) % len(_LEAVES)] for i in range(after)]
+        v = kids if kind == "a" else ("o", [(_KEYS[(lvl + i) % len(_KEYS)], k) for i, k in enumerate(kids)])
+    return v
+
+
+def _far_schedules(rng, tree, depth, every):
+    """the plain traversal, then one answer at the first call on the deepest level and one at
+    the first second call (the innermost container)"""
+    calls, _ = ref_visit(tree, [])
+    out = [[]]
+    deep = next((i for i, c in enumerate(calls) if c.endswith(" %d" % depth) and c.split(" ")[1] == "0"), None)
+    second = next((i for i, c in enumerate(calls) if c.split(" ")[1] == "2"), None)
+    codes = [SKIP, POP, STOP, ERROR, rng.choice(INVALID)]
+    rng.shuffle(codes)
+    if deep is not None:
+        for c in (codes if every else codes[:1]):
+            out.append([CONTINUE] * deep + [c])
+    if second is not None:
+        for c in ([POP, STOP, ERROR, rng.choice(INVALID)] if every else [rng.choice([STOP, ERROR, INVALID[0]])]):
+            out.append([CONTINUE] * second + [c])
+    return out
+
+
+def gen_sizes(rng, tier):
+    out = []
+    thorough = tier != "quick"
+
+    def emit(tree, scheds, kind):
+        text = dump(tree)
+        for sc in scheds:
+            obs, _ = want_obs(tree, sc)
+            out.append((mkline(text, sc), {"kind": kind, "want": obs}))
+    # nesting depth
+    depths = list(DEPTHS_THOROUGH if thorough else DEPTHS_QUICK)
+    depths += [rng.randint(600, 2500) for _ in range(6 if thorough else 2)]
+    for d in sorted(depths):
+        tree = _spine_tree(rng, d, rng.choice(["a", "o", "alt", "mix"]))
+        scheds = _far_schedules(rng, tree, d, thorough or d <= 600)
+        if not thorough and d > 1100:
+            scheds = scheds[:1] if d >= 2048 else scheds[:2]
+        emit(tree, scheds, "deep")
+    # container width
+    widths = WIDTHS_QUICK + ([70000, 131073] if thorough else [])
+    for w in widths:
+        kinds = ["a", "o"] if (thorough or w < 60000) else ["o" if w % 3 == 1 else "a"]
+        for kind in kinds:
+            kids = [_LEAVES[i % 7] if i % 97 else [b"in", None] for i in range(w)]
+            tree = kids if kind == "a" else ("o", [(b"k%d" % i, k if k is not None else True) for i, k in enumerate(kids)])
+            last = [CONTINUE] * w + [rng.choice([SKIP, POP, STOP, ERROR, rng.choice(INVALID)])]
+            mid = [CONTINUE] * rng.randint(w // 3, w // 2) + [POP]
+            if w < 60000 or thorough:
+                scheds = [[], last, mid]
+            else:
+                scheds = [[[]], [mid], [last]][w % 3]
+            emit(tree, scheds, "wide")
+    # many nodes, moderate depth and width
+    for _ in range(4 if thorough else 1):
+        def bushy(level):
+            if level == 0:
+                return _LEAVES[rng.randrange(len(_LEAVES))]
+            kids = [bushy(level - 1) if rng.random() < 0.8 else None for _ in range(rng.randint(3, 9))]
+            return kids if rng.random() < 0.5 else ("o", [(b"m%d" % i, k) for i, k in enumerate(kids)])
+        tree = bushy(5)
+        n = _count(tree)
+        sparse = [rng.choice([SKIP, POP]) if rng.random() < 0.02 else CONTINUE for _ in range(2 * n)]
+        obs, nc = want_obs(tree, sparse)
+        emit(tree, [[], sparse[:nc]], "bushy")
+    return out
+
+
 def gen(rng, tier):
-    return gen_exhaustive(tier) + gen_random(rng, tier)
+    return gen_exhaustive(tier) + gen_random(rng, tier) + gen_sizes(rng, tier)
 
 
 # ------------------------------------------------------------------ oracle
@@ -316,27 +527,108 @@ def _tree_variants(v):
             yield new if isinstance(v, list) else ("o", new)
 
 
+def _spine(tree):
+    """positions along a longest root-to-leaf path"""
+    depth = {}
+    order = []
+    todo = [tree]
+    while todo:                       # post-order by two passes over an explicit list
+        x = todo.pop()
+        order.append(x)
+        k = _kids(x)
+        if k:
+            todo.extend(k)
+    for x in reversed(order):
+        k = _kids(x)
+        depth[id(x)] = 1 + max((depth[id(c)] for c in k), default=0) if k else 0
+    pos, nodes = [], [tree]
+    x = tree
+    while _kids(x):
+        k = _kids(x)
+        i = max(range(len(k)), key=lambda j: depth[id(k[j])])
+        pos.append(i)
+        x = k[i]
+        nodes.append(x)
+    return nodes, pos
+
+
+def _with_child(node, i, new):
+    if isinstance(node, list):
+        return node[:i] + [new] + node[i + 1:]
+    return ("o", node[1][:i] + [(node[1][i][0], new)] + node[1][i + 1:])
+
+
+def _big_variants(tree):
+    """cut a segment out of the longest path; drop a block of members of the widest node on it"""
+    nodes, pos = _spine(tree)
+    d = len(pos)
+
+    def rebuild(upto, new):
+        for lvl in range(upto - 1, -1, -1):
+            new = _with_child(nodes[lvl], pos[lvl], new)
+        return new
+    seen = set()
+    for frac in (2, 4, 8, 16, 64, 256):
+        seg = max(1, d // frac)
+        for a in range(0, d - seg + 1, max(1, seg)):
+            if (a, seg) in seen or d == 0:
+                continue
+            seen.add((a, seg))
+            yield rebuild(a, nodes[a + seg])
+            if len(seen) > 60:
+                break
+    if d:
+        lvl = max(range(d), key=lambda j: len(_kids(nodes[j])))
+        k = _kids(nodes[lvl])
+        w = len(k)
+        if w > 8:
+            for frac in (2, 4, 16, 128):
+                blk = max(1, w // frac)
+                for a in range(0, w, blk):
+                    if a <= pos[lvl] < a + blk:
+                        continue
+                    keep = [j for j in range(w) if not (a <= j < a + blk)]
+                    node = nodes[lvl]
+                    newnode = [node[j] for j in keep] if isinstance(node, list) else ("o", [node[1][j] for j in keep])
+                    # the spine child moved left when the block was before it
+                    shift = blk if a < pos[lvl] else 0
+                    below = nodes[lvl + 1]
+                    newnode = _with_child(newnode, pos[lvl] - shift, below)
+                    yield rebuild(lvl, newnode)
+
+
 def shrink(ck, line, cls):
     text, tree, sched = parse_line(line)
     best = (tree, sched)
 
     def size(t, s):
-        return (_count(t), len(s), sum(1 for c in s if c != CONTINUE), len(jvtext.dump(t)))
-    for _round in range(12):
+        return (_count(t), len(s), sum(1 for c in s if c != CONTINUE), len(dump(t)))
+    for _round in range(24):
         t, s = best
+        big = _count(t) > 150
         cands = []
-        for i in range(len(s)):
-            cands.append((t, s[:i] + s[i + 1:]))
-            if s[i] != CONTINUE:
-                cands.append((t, s[:i] + [CONTINUE] + s[i + 1:]))
-        if s:
-            cands.append((t, s[:-1]))
-        for tv in itertools.islice(_tree_variants(t), 400):
-            cands.append((tv, s))
-        cands = [c for c in cands if size(*c) < size(*best)]
+        if big:
+            for tv in _big_variants(t):
+                cands.append((tv, s))
+                if s:
+                    cands.append((tv, []))
+            if s:
+                cands.append((t, []))
+                cands.append((t, s[:-1]))
+        else:
+            for i in range(len(s)):
+                cands.append((t, s[:i] + s[i + 1:]))
+                if s[i] != CONTINUE:
+                    cands.append((t, s[:i] + [CONTINUE] + s[i + 1:]))
+            if s:
+                cands.append((t, s[:-1]))
+            for tv in itertools.islice(_tree_variants(t), 400):
+                cands.append((tv, s))
+        bs = size(*best)
+        cands = [c for c in cands if size(*c) < bs]
         if not cands:
             break
-        lines = [mkline(jvtext.dump(ct), cs) for ct, cs in cands]
+        lines = [mkline(dump(ct), cs) for ct, cs in cands]
         _, c, _ = ck.run_pair(lines, "shrink")
         ok = []
         for i, (cand, l) in enumerate(zip(cands, lines), start=1):
@@ -346,7 +638,7 @@ def shrink(ck, line, cls):
         if not ok:
             break
         best = min(ok, key=lambda c: size(*c))
-    return mkline(jvtext.dump(best[0]), best[1])
+    return mkline(dump(best[0]), best[1])
 
 
 def search(rng, broken_lines):
